@@ -519,6 +519,8 @@ struct RefNotes {
     out_of_subset: BTreeSet<String>,
     used_placemarker: bool,
     newline_call: bool,
+    /// a painted function-like macro name was followed by `(` (C leaves it alone for good)
+    painted_call: bool,
     steps: u64,
 }
 
@@ -651,6 +653,17 @@ impl<'a> Reference<'a> {
                 }
             };
             if t.hs.contains(&name) {
+                if let Some(m) = self.macros.get(&name) {
+                    if m.params.is_some() {
+                        let mut j = ts.len();
+                        while j > 0 && ts[j - 1].k == RK::Nl {
+                            j -= 1;
+                        }
+                        if j > 0 && ts[j - 1].k == RK::LParen {
+                            self.notes.painted_call = true;
+                        }
+                    }
+                }
                 out.push(t);
                 continue;
             }
@@ -1098,7 +1111,11 @@ impl<'a> Gen<'a> {
             } else if r < 6 && budget >= 2 {
                 // paste of two simple operands
                 push_sep(&mut out);
-                let a = self.paste_operand(params);
+                // the left operand is an identifier or a parameter (a number on the left mostly makes pp-numbers)
+                let mut a = self.paste_operand(params);
+                if matches!(a, Tok::Int(_)) && self.rng.chance(4, 5) {
+                    a = Tok::Id(self.rng.pick(PLAIN).to_string());
+                }
                 out.push(a);
                 if self.rng.chance(1, 2) {
                     out.push(Tok::Ws);
@@ -1436,6 +1453,10 @@ fn judge(p: &Program, out: &mut Out, hist: &mut Hist) {
             }
             if let Some(b) = best {
                 class = Dev::names(b);
+            } else if notes.painted_call {
+                // C never expands a painted name again; RSSL only remembers the macro it applied last
+                // (`last_macro_function_index`) and re-enables everything else once a body has been rescanned
+                class = "painted-function-name-reinvoked".to_string();
             } else if notes.used_placemarker {
                 // C needed a placemarker here; RSSL has none and pastes (or expands) whatever is adjacent, in
                 // the order of its rescan, which the switch above reproduces only for the simple shapes
